@@ -255,6 +255,14 @@ impl Gen {
                 } else if !ca.lost && self.rng.chance(1, 2) {
                     self.cas[ci].pub_removed = true;
                     vec![format!("pubrm {}", ca.name), format!("reposync {}", ca.name)]
+                } else if self.rng.chance(1, 2) {
+                    // the check of an unreachable new publication server is refused (a recorded failure without any
+                    // change of content); the next synchronisation needs a list query only, or a delta
+                    if self.rng.chance(1, 2) {
+                        vec![format!("repoprobe {}", ca.name), format!("reposync {}", ca.name)]
+                    } else {
+                        one(format!("repoprobe {}", ca.name))
+                    }
                 } else {
                     one(format!("reposync {}", ca.name))
                 }
